@@ -114,8 +114,27 @@ func rewriteFile(name string, code []byte, rep *rewriteReport) ([]byte, bool, er
 		rep.AtomicFiles++
 		changed = true
 	}
-	if _, im := importName(f, "sync"); im != nil {
-		rep.Unsupported = append(rep.Unsupported, name+": package sync (Mutex/WaitGroup/...) is not modelled")
+	if sname, im := importName(f, "sync"); im != nil {
+		// Mutex, RWMutex, WaitGroup, Once, Locker are modelled by shim/sync; anything else is not
+		okSync := true
+		ast.Inspect(f, func(n ast.Node) bool {
+			if se, ok := n.(*ast.SelectorExpr); ok {
+				if id, ok := se.X.(*ast.Ident); ok && id.Name == sname && id.Obj == nil {
+					switch se.Sel.Name {
+					case "Mutex", "RWMutex", "WaitGroup", "Once", "Locker":
+					default:
+						okSync = false
+						rep.Unsupported = append(rep.Unsupported, fmt.Sprintf("%s: sync.%s is not modelled", name, se.Sel.Name))
+					}
+				}
+			}
+			return true
+		})
+		if okSync {
+			im.Path.Value = strconv.Quote(shimBase + "sync")
+			im.Name = ast.NewIdent(sname)
+			changed = true
+		}
 	}
 	if _, im := importName(f, "time"); im != nil {
 		ast.Inspect(f, func(n ast.Node) bool {
@@ -137,9 +156,9 @@ func rewriteFile(name string, code []byte, rep *rewriteReport) ([]byte, bool, er
 			if se, ok := n.(*ast.SelectorExpr); ok {
 				if id, ok := se.X.(*ast.Ident); ok && id.Name == ctxName && id.Obj == nil {
 					switch se.Sel.Name {
-					case "WithCancel", "WithTimeout", "WithDeadline":
+					case "WithCancel", "WithTimeout", "WithDeadline", "AfterFunc":
 						uses = true
-					case "AfterFunc", "WithCancelCause", "WithTimeoutCause", "WithDeadlineCause", "WithoutCancel":
+					case "WithCancelCause", "WithTimeoutCause", "WithDeadlineCause":
 						rep.Unsupported = append(rep.Unsupported, fmt.Sprintf("%s: context.%s is not modelled", name, se.Sel.Name))
 					}
 				}
